@@ -131,6 +131,7 @@ func c13r1(c *core.Ctx) {
 	}
 	c.Count("panic_sites_reachable", sites)
 	parsedContainerUse(c, m.reach)
+	closeRemovesOwnSession(c)
 	if dbg := os.Getenv("HCSA_DEBUG"); dbg != "" {
 		for _, f := range core.SortedFuncs(m.reach) {
 			if !strings.Contains(fname(f), dbg) {
@@ -604,6 +605,7 @@ func lockLeaks(l ssa.Instruction, unlocks, locks []ssa.Instruction, same func(ss
 }
 
 func c13r5(c *core.Ctx) {
+	handlerErrorHandling(c)
 	p := c.P
 	for _, spec := range []struct{ ctrl, typ string }{{"SetupServerController", tSetupCtrl}, {"VerifyServerController", tVerifyCtrl}} {
 		mo := buildStepModel(p, "hap/pair", spec.ctrl, spec.typ)
@@ -746,5 +748,51 @@ func parsedContainerUse(c *core.Ctx, reach map[*ssa.Function]bool) {
 	}
 	if n == 0 {
 		c.Undecided("parsed-container-use", token.NoPos, "no handler parses a TLV8 body")
+	}
+}
+
+// closeRemovesOwnSession: sessions are looked up by the addresses of a connection. When a peer resets a connection and reconnects
+// from the same port while the server is still busy with the old one, the new connection's session is stored under the same key;
+// the old connection's Close — which comes later — must not remove it: the handlers of the new connection find no session and panic
+// (a correct start request on a new connection is answered with a dropped connection). Close therefore removes the entry only
+// when the session stored there is the closing connection's own.
+func closeRemovesOwnSession(c *core.Ctx) {
+	f := c.P.Func("hap", "(*Connection).Close")
+	if f == nil {
+		c.Undecided("Connection.Close", token.NoPos, "not found")
+		return
+	}
+	n := 0
+	for _, s := range core.FindCalls(f, func(i ssa.Instruction) bool { return core.IsInvoke(i, qContext, "DeleteSessionForConnection") }) {
+		n++
+		own := core.CmpFact(func(x, y ssa.Value) (bool, bool) {
+			isSessConn := func(v ssa.Value) bool {
+				found := false
+				walkOperands(v, 4, func(o ssa.Value) {
+					if call, ok := o.(*ssa.Call); ok && core.IsInvoke(call, qSession, "Connection") {
+						found = true
+					}
+				})
+				return found
+			}
+			isRecv := func(v ssa.Value) bool {
+				found := false
+				walkOperands(v, 4, func(o ssa.Value) {
+					if valIs(o, f.Params[0]) {
+						found = true
+					}
+				})
+				return found
+			}
+			if (isSessConn(x) && isRecv(y)) || (isSessConn(y) && isRecv(x)) {
+				return true, false
+			}
+			return false, false
+		})
+		c.Check(core.Dominated(s, own), "close-removes-own-session@"+fname(f), posOf(s), "the session entry is removed only where the stored session's connection is the closing one",
+			"Close removes whatever session is stored under the connection's addresses: when the peer has reconnected from the same port in the meantime, the new connection loses its session and every request on it panics in the handler (nil session) instead of being answered")
+	}
+	if n == 0 {
+		c.Undecided("close-removes-own-session", f.Pos(), "Close does not remove the session (C10-R5)")
 	}
 }
